@@ -141,13 +141,13 @@ def gen_cases(ctx):
                     else:
                         yield from cases_for(kind, shape, basis=True, nrand=60, nsym=10)
                 else:
-                    if pos == 2 and kind in KINDS_2D:
+                    if pos == 2 and kind in ("h2d", "d2d_anti"):
                         yield from cases_for(kind, shape, full_vals=(0, 8, 16))
                     else:
                         yield from cases_for(kind, shape, full_vals=(0, 8), nrand=300, nsym=30)
     # ---- 3D
     for kind in KINDS_3D:
-        yield from cases_for(kind, [2, 2, 2], full_vals=(0, 8) if quick else (0, 8, 16), nrand=30, nsym=10)
+        yield from cases_for(kind, [2, 2, 2], full_vals=(0, 8, 16) if (not quick and kind in ("p3d", "d3d_xz_anti")) else (0, 8), nrand=30, nsym=10)
         yield from cases_for(kind, [3, 3, 3], basis=True, nrand=60 if quick else 600, nsym=20 if quick else 100)
     shapes3 = [[2, 2, 3], [2, 3, 2], [3, 2, 2], [3, 3, 2], [3, 2, 3], [2, 3, 3], [4, 4, 4], [2, 3, 4], [4, 3, 2], [5, 5, 2], [2, 5, 5], [5, 2, 5],
                [4, 4, 1], [1, 4, 4], [4, 1, 4], [5, 2, 1], [1, 3, 5], [4, 1, 2], [6, 6, 1], [1, 1, 1], [1, 1, 4], [3, 1, 1]]
